@@ -797,9 +797,18 @@ def op_modify(w, op):
     w.handle(op).modify(op["sym"], op["value"])
 
 
+def _heap_quantity(w, op):
+    """An existing scalar quantity (possibly older than the last edit of its own symbol) as the defining value."""
+    unyt, lt, dims, uo, ur, us = _U()
+    q = w.operand(op, "x")
+    if not isinstance(q, unyt.unyt_quantity) or q.units.base_offset != 0.0 or np.iscomplexobj(q):
+        raise Skip
+    return q
+
+
 def op_modify_q(w, op):
     reg = w.handle(op)
-    q = _mkq(w, reg, op["v"], op["s"])
+    q = _heap_quantity(w, op) if "x" in op else _mkq(w, reg, op["v"], op["s"])
     reg.modify(op["sym"], q)
 
 
@@ -811,7 +820,9 @@ def op_define_unit(w, op):
     unyt, lt, dims, uo, ur, us = _U()
     node = w.node(op)
     reg = w.handle(op, node)
-    if op.get("form") == "quantity":
+    if "x" in op:
+        value = _heap_quantity(w, op)
+    elif op.get("form") == "quantity":
         value = _mkq(w, reg, op["v"], op["s"])
     elif op.get("form") == "quantity_default":
         # the documented idiom define_unit("code_mass", 1e10*unyt.Msun, registry=reg): the value lives in the
@@ -965,11 +976,17 @@ def cold_eval(req):
             try:
                 nw = next(n for n in req["nodes"] if n["id"] == node.id)
                 reg2, _ = build_registry(dict(nw, usys="mks"))
-                if op.get("form") == "quantity_default":
+                if "x" in op:
+                    # the defining value is an existing object: what it IS is its own number times its own unit's
+                    # base value (the value that unit had when it was created), not what its spelling means now
+                    q = w.cold_operands["x"]
+                    out["expected"] = [float(q.value) * float(q.units.base_value), str(q.units.dimensions)]
+                elif op.get("form") == "quantity_default":
                     q = unyt.unyt_quantity(op["v"], op["s"])
+                    out["expected"] = [float(q.in_base("mks").value), str(q.units.dimensions)]
                 else:
                     q = unyt.unyt_quantity(op["v"], op["s"], registry=reg2)
-                out["expected"] = [float(q.in_base("mks").value), str(q.units.dimensions)]
+                    out["expected"] = [float(q.in_base("mks").value), str(q.units.dimensions)]
             except Exception as e:
                 if harness_frame(e.__traceback__):
                     raise
